@@ -163,7 +163,12 @@ class MemTransport(asyncio.Transport):
         self.closing = True
         self.close_time = self._loop.time()
         self.eof_sent = True  # pending `out` is still flushed to the peer, then EOF
-        self._schedule_lost(None)
+        if self.out and (self.stalled or not self.peer.reading) and not self.peer.closing:
+            # a selector transport with a non-empty write buffer reports connection_lost only after the buffer was
+            # flushed; while the peer does not read, the protocol stays registered (and an abort() still drops the data)
+            self.lost_after_flush = True
+        else:
+            self._schedule_lost(None)
         self._schedule_pump()
 
     def abort(self):
@@ -260,6 +265,9 @@ class MemTransport(asyncio.Transport):
         return 0
 
     def _after_drain(self):
+        if getattr(self, "lost_after_flush", False) and self.closing and not self.out:
+            self.lost_after_flush = False
+            self._schedule_lost(None)
         if self.writing_paused and len(self.out) <= self.low and not self.closing:
             self.writing_paused = False
             try:
